@@ -91,10 +91,24 @@ def execute(sc, pol, mutant=None):
     """Run scenario sc = {n, ops:[{k, fail, hasargs, argd}]} against the real Swarm under the
     scheduling policy pol.  Returns the trace dict (plus 'schedule', 'branch', 'choices')."""
     from cflib.crazyflie.swarm import Swarm
+    import zlib
     n = sc['n']
     ev = []
     st = {'op': 0, 'base': 0}
     members = []
+    # How the caller owns its argument dictionary (the property quantifies over "all argument
+    # dictionaries"): in half of the scenarios with several argument-taking calls the caller passes
+    # the SAME dictionary object to every call, and equal entries are one shared list object -- a
+    # library that edits the caller's dictionary or lists in place shows on the next call.
+    if 'reuse' not in sc:
+        sc['reuse'] = (sum(1 for op in sc['ops'] if op['hasargs']) >= 2 and
+                       zlib.crc32(repr([(op['k'], sorted(op['fail'])) for op in sc['ops']]).encode()) % 2 == 0)
+    if sc['reuse']:
+        first = next(op for op in sc['ops'] if op['hasargs'])
+        for op in sc['ops']:
+            if op['hasargs']:
+                op['argd'] = first['argd']
+    shared_ad = {}
 
     def idx_of(obj):
         for m in members:
@@ -154,7 +168,14 @@ def execute(sc, pol, mutant=None):
                 ev.append({'e': 'op', 'o': o})
                 k = op['k']
                 ad = None
-                if op['hasargs']:
+                if op['hasargs'] and sc['reuse']:
+                    if not shared_ad:
+                        lists = {}
+                        for i in range(1, n + 1):
+                            shared_ad[uri_of(i)] = lists.setdefault(tuple(op['argd'][i - 1]), list(op['argd'][i - 1]))
+                        shared_ad['radio://0/1/2M/EXTRA'] = [4242]
+                    ad = shared_ad
+                elif op['hasargs']:
                     ad = {uri_of(i): list(op['argd'][i - 1]) for i in range(1, n + 1)}
                     ad['radio://0/1/2M/EXTRA'] = [4242]
                 try:
@@ -214,7 +235,8 @@ def execute(sc, pol, mutant=None):
         res = s.run(until=lambda: all(r.finished for r in s.threads), horizon=100.0)
         quiet = res == 'until' and not any(r.dead for r in s.threads)
         schedule = list(s.trace)
-    tr = {'n': n, 'ops': [{'k': op['k'], 'fail': sorted(op['fail']), 'hasargs': bool(op['hasargs']),
+    tr = {'n': n, 'reuse': bool(sc['reuse']),
+          'ops': [{'k': op['k'], 'fail': sorted(op['fail']), 'hasargs': bool(op['hasargs']),
                            'argd': [list(x) for x in op['argd']]} for op in sc['ops']],
           'ev': ev, 'quiet': quiet, 'schedule': schedule}
     if isinstance(policy, DfsPolicy):
@@ -321,6 +343,14 @@ def _mut(name):
                     args += next(iter(args_dict.values()))
                 return args
             bind(sw, '_process_args_dict', process)
+        elif name == 'args_edited_in_place':
+            def process(self, scf, uri, args_dict):
+                if not args_dict:
+                    return [scf]
+                args = args_dict[uri]
+                args.insert(0, scf)          # edits the caller's list
+                return args
+            bind(sw, '_process_args_dict', process)
         elif name == 'shared_reporter':
             shared = sw.Reporter()
 
@@ -335,7 +365,7 @@ def _mut(name):
 
 MUTANTS = ['no_join', 'join_all_but_last', 'late_binding', 'inspect_early', 'no_chain', 'swallow',
            'open_no_close', 'reopen', 'seq_reversed', 'par_raises', 'first_entry_for_all',
-           'shared_reporter']
+           'shared_reporter', 'args_edited_in_place']
 
 
 # --------------------------------------------------------------------------- scenarios
@@ -375,6 +405,9 @@ def sequence_scenarios(n, full=True):
         out.append({'n': n, 'ops': [op('open', n, f), op('open', n)]})
         out.append({'n': n, 'ops': [op('psafe', n, f, True), op('psafe', n)]})
     out.append({'n': n, 'ops': [op('open', n), op('close', n), op('open', n)]})
+    # the caller hands the same argument dictionary (and shared entry lists) to consecutive calls
+    for k1, k2 in (('seq', 'seq'), ('par', 'psafe'), ('psafe', 'seq'), ('seq', 'par')):
+        out.append({'n': n, 'reuse': True, 'ops': [op(k1, n, (), True), op(k2, n, (), True)]})
     if full or n < 2:
         out.append({'n': n, 'ops': [op('open', n), op('par', n, range(1, n + 1)), op('open', n, [1] if n else [])]})
     return out
@@ -398,6 +431,7 @@ def mutant_scenarios():
     out.append({'n': 1, 'ops': [op('open', 1), op('open', 1)]})
     out.append({'n': 1, 'ops': [op('psafe', 1, [1], True), op('psafe', 1)]})
     out.append({'n': 1, 'ops': [op('open', 1, [1]), op('open', 1)]})
+    out.append({'n': 2, 'reuse': True, 'ops': [op('seq', 2, (), True), op('psafe', 2, (), True)]})
     return out
 
 
